@@ -43,9 +43,20 @@ type CallPlan struct {
 	ObserveCtx bool // while blocked, give up with ctx.Err() when the context is canceled
 	ResCaps    []ResCap
 	TakeArgs   []int // argument pointer slots whose capability the implementation keeps (AddRef) as harness handle
+	// FailAfterResults: (returning behaviours only) the implementation
+	// allocates and fills its results, capabilities included, and then
+	// returns an error.  Whoever owns the results (the Conn's answer for a
+	// call that came over the wire) must still release those capabilities.
+	FailAfterResults bool
 	Consumed   bool  // set (under World.mu) once the implementation no longer needs the plan's handles
 	release    chan struct{}
 	relOnce    sync.Once
+}
+
+// Fails reports whether the implementation will answer with an error
+// (unless it is canceled first, which is an error too).
+func (p *CallPlan) Fails() bool {
+	return p.Behaviour == BehExcNow || p.Behaviour == BehAckBlockExc || p.FailAfterResults
 }
 
 // Release unblocks a blocked implementation (idempotent).
@@ -67,6 +78,10 @@ type CallObs struct {
 	Starts   int // number of times this uid was observed (must be 1)
 	Canceled bool
 	ArgCaps  int // number of capabilities in the arguments' cap table
+	// ResultsFilled: the implementation had placed its results (with the
+	// plan's capabilities) when it returned, also when it returned an error
+	// (CallPlan.FailAfterResults).
+	ResultsFilled bool
 }
 
 // Handle is a capability reference held by the harness itself.
@@ -380,6 +395,7 @@ func (lc *LocalCap) impl(ctx context.Context, call *server.Call) error {
 		w.mu.Unlock()
 	}
 	var err error
+	filled := false
 	switch {
 	case canceled:
 		err = fmt.Errorf("impl-canceled-%x", uid)
@@ -387,6 +403,11 @@ func (lc *LocalCap) impl(ctx context.Context, call *server.Call) error {
 		err = fmt.Errorf("boom-%x", uid)
 	default:
 		err = lc.fillResults(call, plan, uid, stream, seq)
+		filled = err == nil
+		if filled && plan.FailAfterResults {
+			// the error message contains "boom-<uid>" like the plain exceptions
+			err = fmt.Errorf("boom-%x-after-results", uid)
+		}
 	}
 	es := ""
 	if err != nil {
@@ -399,6 +420,7 @@ func (lc *LocalCap) impl(ctx context.Context, call *server.Call) error {
 	o.RetT = rt
 	o.Err = es
 	o.Canceled = canceled
+	o.ResultsFilled = filled
 	w.mu.Unlock()
 	return err
 }
